@@ -9,7 +9,7 @@ Redaction case:
        => O <pairs: n (<path: n str…> <value>)…> <occ: n bool…> | P
   attr ::= L <key> <value> | G <key> <n> attr…
   op   ::= W <n> attr… | Q <name>
-  user ::= N | T <key> | A <key>
+  user ::= N | T <key> | A <key> | X <prefix>
 -/
 namespace Rivaas.DriverC20
 open Rivaas.Proto Rivaas.Log
@@ -40,6 +40,7 @@ def pUser : P UserRep := do
   if k == "N" then pure .none
   else if k == "T" then UserRep.dropTop <$> str
   else if k == "A" then UserRep.dropAny <$> str
+  else if k == "X" then UserRep.addPrefix <$> str
   else failure
 
 def pHType : P HType := do
